@@ -7,6 +7,8 @@ COMMON_ASSUME = [
 ]
 
 TIERS = {
+    "C12": {"quick": {"runs": 300, "budget_s": 80, "run_timeout_s": 300},
+            "thorough": {"runs": 5000, "budget_s": 900, "run_timeout_s": 600}},
     "C07": {"quick": {"runs": 400, "budget_s": 70, "run_timeout_s": 300},
             "thorough": {"runs": 6000, "budget_s": 900, "run_timeout_s": 600}},
     "C03": {"quick": {"runs": 400, "budget_s": 80, "run_timeout_s": 300},
@@ -35,6 +37,17 @@ TM_RULE = ("case = (generated program, argument, seeded history of trace transit
            "or a fault fired")
 
 META = {
+    "C12": {"LEVEL": "exploration",
+            "RULE": "case = (generated model, particle count N in 1..8, generated log-weight vector kind, method, SCRIPTED schedule of "
+                    "the resampling randomness: offset sweep over a grid plus all (k+u)/N boundaries +- 1e-4, complete outcome tree of "
+                    "categorical index vectors for N<=4, or reference-sampled scripts); distinct = distinct (model shape, N, weight kind, "
+                    "method, mode); non-trivial = N >= 2",
+            "COMPONENTS": {"real": ["genjax.inference.smc.init/resample/systematic_resample/resample_vectorized_trace",
+                                    "genjax.core (Vmap'd generate)", "genjax.pjax (modular_vmap)"],
+                           "stub": ["Seed key splitting and the uniform / categorical leaf samplers (SCRIPTED)", "sim/jaxcompat.py"],
+                           "regimes": "SCRIPTED"},
+            "ASSUMPTIONS": COMMON_ASSUME + ["floor/ceil bounds are relaxed by 1e-4 in N*w to absorb float32 cumulative sums"],
+            "REQUIRED_PROBES": {"quick": ["sweep", "tree_complete", "sampled"], "thorough": ["sweep", "tree_complete", "sampled", "w_partial_inf", "w_onehot"]}},
     "C07": {"LEVEL": "exploration",
             "RULE": "case = (generated program shape over sites / nested scans / modular_vmap / cond / nested seed / @gen calls, "
                     "top-level keys, mode: TRACER key-fingerprint run, REAL distinctness run, or statistical batch); distinct = "
@@ -110,6 +123,8 @@ META = {
 
 DST = "deterministic simulation with fault injection"
 CLAIMS = {
+    "C12": dict(text="the resampling randomness is a schedule decision: systematic offsets swept over a grid and all cell boundaries, categorical index vectors enumerated completely for N<=4; copy faithfulness, weight reset, lml conservation, floor/ceil copies and exact expected copies checked per script",
+                ref="DESIGN.md 4 C12", note="float32 cumsum tolerance 1e-4 in N*w; sampled weight vectors", technique=DST + " (SCRIPTED randomness seam: offset sweep + outcome tree)"),
     "C01": dict(text="seeded search over generated programs and operation histories; every simulate/assess compared with an independent reference PPL; small discrete programs covered by complete outcome trees (simulated distribution == assessed density outcome by outcome)",
                 ref="DESIGN.md 4 C01", note="PPL-ref, scipy.special, JAX/XLA CPU, jaxcompat adapter trusted; bounded program sizes",
                 technique=DST + " (SCRIPTED randomness seam + outcome-tree explorer, REAL eager/jit/vmap, faults between operations)"),
